@@ -107,7 +107,8 @@ def build_inputs(cases, rnd, quick):
             out.append((("text", " ".join(args), dict(tag, style="random"))))
             out.append(("list", random_args(f, rnd), dict(tag, style="random")))
             if c["mixed"]:
-                for inp in c["mixed"][rnd.randrange(2)]:
+                mixed = c["mixed"][rnd.randrange(2)]
+                for inp in (rnd.sample(mixed, 3) if quick else mixed):
                     form, value = as_value(inp)
                     out.append((form, value, {"family": "mixed", "f": f}))
         else:
@@ -207,7 +208,7 @@ def run(chk):
     for m in meta.values():
         fam[m["family"]] = fam.get(m["family"], 0) + 1
     chk.rule = ("CNF formulas up to the bound (TLC, exhaustive; all 5 decoration styles x string/list at design level), per emitted "
-                "formula 2-3 styles x both shapes + a blank variant + 2 random decorations + 6 mixed texts; v2 trees x 7 renderings + "
+                "formula 2-3 styles x both shapes + a blank variant + 2 random decorations + 3-6 mixed texts; v2 trees x 7 renderings + "
                 "injected old-style operands; random formulas up to 4x4 over 7 names; every row = one input under V1, V2 and "
                 "AUTO_DETECT with the complete truth table over 2^5 tag subsets; distinct = distinct (shape, input)")
     chk.extra["distinct_nontrivial"] = len({(m["family"] == "probe", json.dumps(m["input"])) for m in meta.values()})
